@@ -219,6 +219,70 @@ def special_u64_to_fp(prec):
     return check_all
 
 
+def _is_two63(t, pf):
+    """t denotes the constant 2^63 as a value of precision pf"""
+    import struct
+    if not isinstance(t, tuple):
+        return False
+    if t[0] == 'f2f' and t[2] == pf and isinstance(t[3], tuple):
+        return _is_two63(t[3], t[1])
+    if t[0] == 'frombits' and t[1] == pf and isinstance(t[2], tuple) and t[2][0] == 'c':
+        if pf == 32:
+            return struct.unpack('<f', struct.pack('<I', t[2][1] & 0xffffffff))[0] == 2.0 ** 63
+        if pf == 64:
+            return struct.unpack('<d', struct.pack('<Q', t[2][1] & (2 ** 64 - 1)))[0] == 2.0 ** 63
+    return False
+
+
+def special_fp_to_u64(pf):
+    """fp -> unsigned 64-bit: the truncating conversions of the hardware are signed, so the sequence must split at 2^63:
+    below, the signed conversion of x; from 2^63 on, the signed conversion of x - 2^63 with bit 63 set afterwards"""
+    X = ('r', 'lhs', 'f%d' % pf)
+    TOP = C(1 << 63)
+
+    def check_all(finals):
+        if len(finals) < 2:
+            s = finals[0]
+            return False, 'signed-64-bit-conversion', 'is the single signed 64-bit truncating conversion %r: values >= 2^63 give 0x8000000000000000' % (canon_cast(canon(s.reg['rax'])),)
+        seen = {False: 0, True: 0}
+        for s in finals:
+            if s.st:
+                return False, 'x87-residue', 'leaves %d value(s) on the x87 stack' % len(s.st)
+            if pf == 80 and getattr(s, 'df', None) not in (None, 'restored'):
+                return False, 'control-word', 'does not restore the x87 control word'
+            if len(s.cond) != 1:
+                return False, 'wrong-sequence', 'takes %d decisions on a path, one range test expected' % len(s.cond)
+            c, truth = s.cond[0]
+            c = canon(c)
+            if isinstance(c, tuple) and c[0] == 'fle' and c[1] == pf and c[3] == X and _is_two63(c[2], pf):
+                high = truth
+            elif isinstance(c, tuple) and c[0] == 'flt' and c[1] == pf and c[2] == X and _is_two63(c[3], pf):
+                high = not truth
+            else:
+                return False, 'wrong-range-test', 'decides on %r, which is not the test x >= 2^63' % (c,)
+            got = canon_cast(canon(s.reg['rax']))
+            if not high:
+                want = ('fp2int', 64, pf, X)
+                if got != want:
+                    return False, 'low-range', 'for x < 2^63 the result is %r, prescribed %r' % (got, want)
+            else:
+                ok = False
+                if isinstance(got, tuple) and got[0] == 'bin' and got[1] in ('xor', 'or', 'add') and got[2] == 64:
+                    ops = [got[3], got[4]]
+                    if TOP in ops:
+                        other = ops[1] if ops[0] == TOP else ops[0]
+                        if isinstance(other, tuple) and other[0] == 'fp2int' and other[1] == 64 and other[2] == pf:
+                            d = other[3]
+                            ok = isinstance(d, tuple) and d[0] == 'fbin' and d[1] == 'sub' and d[2] == pf and d[3] == X and _is_two63(d[4], pf)
+                if not ok:
+                    return False, 'high-range', 'for x >= 2^63 the result is %r; prescribed: signed conversion of x - 2^63 with bit 63 set' % (got,)
+            seen[high] += 1
+        if not (seen[False] and seen[True]):
+            return False, 'wrong-sequence', 'does not have both a path for x < 2^63 and one for x >= 2^63'
+        return True, '', 'both ranges handled'
+    return check_all
+
+
 def r015(cg, rep, which):
     """cast table through the machine. which = 'int' (C01: integer quadrant + bool) or 'fp' (C02)"""
     rule = 'R01.5' if which == 'int' else 'R02.1'
@@ -243,12 +307,11 @@ def r015(cg, rep, which):
                         tag = 'signed-conversion' if (len(finals) == 1) else 'wrong-sequence'
                         rep.ob(rule, key if ok else key + ':' + tag, ok, 'conversion unsigned long -> %s: %s' % (to, detail), where=where, facts={'trace': tr.text()})
                     else:
-                        # fp -> u64 needs a sequence that handles values >= 2^63
-                        ok = len(finals) >= 2
-                        s = finals[0]
-                        got = canon_cast(canon(s.reg['rax']))
-                        tag = 'signed-64-bit-conversion' if (isinstance(got, tuple) and got[0] == 'fp2int' and got[1] == 64) else 'other'
-                        rep.ob(rule, key if ok else key + ':' + tag, ok, 'conversion %s -> unsigned long is the signed 64-bit truncating conversion %r: values >= 2^63 give 0x8000000000000000' % (frm, canon_cast(canon(s.reg['rax']))), where=where, facts={'trace': tr.text()})
+                        try:
+                            ok, tag, detail = special_fp_to_u64(exp[2])(finals)
+                        except Unknown as e:
+                            rep.undecided(rule, key, str(e), where=where); continue
+                        rep.ob(rule, key if ok else key + ':' + tag, ok, 'conversion %s -> unsigned long %s' % (frm, detail), where=where, facts={'trace': tr.text()})
                 continue
             report(rep, rule, key, pack, check_cast(frm, to), 'conversion %s -> %s' % (frm, to), where)
 
